@@ -13,11 +13,12 @@ EXTENDS Lifecycle, Json, IOUtils
 Steps == ndJsonDeserialize(IOEnv.LC_STEPS)
 Cases == JsonDeserialize(IOEnv.LC_CASES)
 Plan  == Cases.plan
-K == WithSwitches(WithCrash(MkK(Plan.D, Plan.S, Plan.W, Plan.maxd, SeqToSet(Plan.cd), SeqToSet(Plan.kinds), Plan.pairs,
-         SeqToSet(Plan.bury), Plan.rev, Plan.mir, Plan.mode, Plan.empty), Plan.crash), Plan.markFirst, Plan.dropOrphans)
+K == WithDeep(WithSwitches(WithCrash(MkK(Plan.D, Plan.S, Plan.W, Plan.maxd, SeqToSet(Plan.cd), SeqToSet(Plan.kinds), Plan.pairs,
+         SeqToSet(Plan.bury), Plan.rev, Plan.mir, Plan.mode, Plan.empty), Plan.crash), Plan.markFirst, Plan.dropOrphans),
+         Plan.DX, SeqToSet(Plan.around))
 RC(c) == CASE c = 1 -> "ok" [] c = 2 -> "panic" [] OTHER -> "err"
 
-ChanFields == {"ph", "bh", "fg", "fh", "dsh", "mch", "uch", "ct", "our", "ht", "sl", "csh"}
+ChanFields == {"ph", "bh", "fg", "fh", "dsh", "mch", "uch", "ct", "our", "ht", "sl", "csh", "oosh"}
 Abs(p) == [h |-> p.h, hw |-> p.hw, ev |-> p.ev, mark |-> p.mark, su |-> SeqToSet(p.su),
            chans |-> [d \in 1..K.maxd |-> [f \in ChanFields |-> p.chans[d][f]]]]
 ObsOf(p) == [h |-> p.h, ph |-> [d \in 1..K.maxd |-> p.chans[d].ph]]
